@@ -1128,6 +1128,38 @@ def _b_match():
              '[.rowMinima, .rowOfSmallestMinimum, .nearestColumnOfThatRow, .record, .maskColumn, .maskRow]', 'greedy_match: one step of the loop')]
 
 
+def _f_locks():
+    """where the locks are created: the four file locks by the constructors of RasterPairReader / RasterFuse (by the constructing
+    thread, once per object), the read locks of ParamStats by the calling thread before any worker is started - never by a worker"""
+    from homonim.fuse import RasterFuse
+    from homonim.raster_pair import RasterPairReader
+    from homonim.stats import ParamStats
+    out = []
+    def top_level_locks(fn):
+        return [U(st.targets[0]) for st in fn.body if isinstance(st, ast.Assign) and U(st.value) == 'threading.Lock()']
+    def any_locks(fn):
+        return [n for n in ast.walk(fn) if isinstance(n, ast.Call) and U(n) == 'threading.Lock()']
+    got = top_level_locks(fn_body(src_of(RasterFuse.__init__)))
+    if got != ['self._corr_lock', 'self._param_lock']:
+        raise TranslationError(f'RasterFuse.__init__ creates the locks {got}')
+    got = top_level_locks(fn_body(src_of(RasterPairReader.__init__)))
+    if got != ['self._src_lock', 'self._ref_lock']:
+        raise TranslationError(f'RasterPairReader.__init__ creates the locks {got}')
+    sites = ['.fuseCorrInInit', '.fuseParamInInit', '.pairSrcInInit', '.pairRefInInit']
+    for meth, site in (('_get_data_window', '.statsWindowBeforeWorkers'), ('stats', '.statsSumsBeforeWorkers')):
+        fn = fn_body(src_of(getattr(ParamStats, meth)))
+        if top_level_locks(fn) != ['read_lock'] or len(any_locks(fn)) != 1:
+            raise TranslationError(f'ParamStats.{meth}: the read lock must be created once, by the caller, before the workers start')
+        sites.append(site)
+    # no other lock creation anywhere in the classes that process blocks
+    for cls, allowed in ((RasterFuse, 2), (RasterPairReader, 2)):
+        n = sum(len(any_locks(f)) for f in ast.walk(src_of(cls)) if isinstance(f, ast.FunctionDef))
+        if n != allowed:
+            raise TranslationError(f'{cls.__name__}: {n} lock creations, expected {allowed} (in __init__ only)')
+    out.append(('locks_created', '', 'List LockSite', '[' + ', '.join(sites) + ']', 'where threading.Lock() is called'))
+    return out
+
+
 def _a_write():
     """raster_array.py to_rio_dataset: crop the window, return if empty, slice the block, check, convert, write data, write the
     mask OF THE CROPPED BLOCK when the dataset has no nodata value and band 1 is among the bands written"""
@@ -1185,7 +1217,7 @@ def _a_read():
 # one extractor per source function: a failure in one leaves the others (and the properties they serve) alone
 SECTIONS = [_k_fit_gain, _k_fit_gain_offset, _k_r2, _k_blk, _s_cmp, _s_cmp_mean, _s_stats, _g_blocks, _g_resolve, _g_auto,
             _g_overlap, _g_expand, _g_round, _g_covers, _g_pindex, _s_cmp_block, _m_cover, _a_bounded, _p_r2band, _f_prog, _f_outfiles, _c_invoke, _f_process, _k_resampling, _a_convert, _a_write, _a_read,
-            _g_orient, _m_naneq, _f_accumulate, _c_loops, _f_profiles, _c_nodata, _b_match]
+            _g_orient, _m_naneq, _f_accumulate, _c_loops, _f_profiles, _c_nodata, _b_match, _f_locks]
 # definition-name prefixes each extractor is responsible for (used to attribute a failed extraction to properties)
 PROVIDES = {'_k_fit_gain': ('fitGain_',), '_k_fit_gain_offset': ('fitGainOffset_',), '_k_r2': ('r2_',),
             '_k_blk': ('blk_', 'blockNorm_', 'applyParams'), '_s_cmp': ('cmp_',), '_s_cmp_mean': ('cmp_meanRow',),
@@ -1194,12 +1226,12 @@ PROVIDES = {'_k_fit_gain': ('fitGain_',), '_k_fit_gain_offset': ('fitGainOffset_
             '_g_covers': ('covers_axis',), '_g_pindex': ('paramIndex',), '_s_cmp_block': ('cmpPx_',), '_m_cover': ('cover_',),
             '_a_bounded': ('bounded_',), '_p_r2band': ('stats_isR2Band', 'stats_inpainted'), '_f_prog': ('prog',), '_f_outfiles': ('outFilesEvents',), '_c_invoke': ('cli_',), '_f_process': ('fanOut',), '_k_resampling': ('resamplingIsDown',), '_a_convert': ('convert_',), '_a_write': ('writeSteps',),
             '_a_read': ('read_',), '_g_orient': ('orient_',), '_m_naneq': ('mask_',), '_f_accumulate': ('accumulate_',),
-            '_c_loops': ('cli_fuseLoop', 'cli_compareLoop'), '_f_profiles': ('profile_',), '_c_nodata': ('cli_nodata',), '_b_match': ('match_',)}
+            '_c_loops': ('cli_fuseLoop', 'cli_compareLoop'), '_f_profiles': ('profile_',), '_c_nodata': ('cli_nodata',), '_b_match': ('match_',), '_f_locks': ('locks_',)}
 # which generated definitions (by name prefix) bear on which property's check
 SERVES = {
     'C01': ('fitGain', 'r2_', 'blk_', 'blockNorm_'), 'C02': ('fitGain', 'r2_', 'blk_', 'blockNorm_', 'applyParams', 'resamplingIsDown'),
     'C07': ('fitGain', 'r2_', 'blk_', 'blockNorm_', 'applyParams', 'mask_'), 'C14': ('applyParams', 'paramIndex', 'fitGain', 'r2_', 'profile_metaTags'),
-    'C04': ('prog', 'fanOut', 'accumulate_'), 'C09': ('prog', 'outFilesEvents', 'fanOut'), 'C10': ('outFilesEvents', 'profile_', 'cli_fuseLoop'), 'C11': ('cmp_', 'cmpPx_', 'resamplingIsDown', 'accumulate_compare', 'mask_'), 'C12': ('stats_', 'accumulate_stats'), 'C17': ('cover_',), 'C20': ('bounded_', 'writeSteps', 'read_', 'convert_', 'mask_'), 'C13': ('convert_', 'writeSteps', 'profile_'), 'C08': ('read_', 'mask_'),
+    'C04': ('prog', 'fanOut', 'accumulate_', 'locks_'), 'C09': ('prog', 'outFilesEvents', 'fanOut'), 'C10': ('outFilesEvents', 'profile_', 'cli_fuseLoop'), 'C11': ('cmp_', 'cmpPx_', 'resamplingIsDown', 'accumulate_compare', 'mask_'), 'C12': ('stats_', 'accumulate_stats'), 'C17': ('cover_',), 'C20': ('bounded_', 'writeSteps', 'read_', 'convert_', 'mask_'), 'C13': ('convert_', 'writeSteps', 'profile_'), 'C08': ('read_', 'mask_'),
     'C03': ('writeSteps',), 'C05': ('overlapForKernel', 'blocks_', 'resamplingIsDown', 'fitGain', 'r2_'),
     'C06': ('blocks_', 'expandWindow_', 'roundBounds_', 'autoBlock_', 'orient_'), 'C16': ('covers_axis', 'orient_'), 'C18': ('resolveAutoIsRef', 'orient_', 'cli_fuseLoop'), 'C19': ('cli_',), 'C15': ('match_',),
 }
